@@ -81,8 +81,8 @@ def body_shift(case, note):
         shifted = x.get_html_string(k, SENT)
         bl = base.split(SENT)
         sl = shifted.split(SENT)
-        if base == "" and label == "list":
-            check(shifted == "", "empty list renders non-empty with indent")
+        if label == "list" and not L.visible(roots):
+            check(base == "" and shifted == "", "a list without visible items renders non-empty")
             continue
         check(len(bl) == len(sl), f"{label}: number of layout lines changes with indent", base, shifted)
         for a, b in zip(bl, sl):
